@@ -38,6 +38,19 @@ def repragma(r, prog):
 
 
 def gen(r, tier):
+    import props.c01 as c01
+    ss = list(c01.shared_shuffles())
+    ss = [c for c in ss if r.below(6 if tier == "quick" else 1) == 0]
+    for p in ss:
+        yield "%s ;; %s" % (config(r), p)
+    # machine combiners shared by concurrent tasks of one machine: many rows, a handful of keys per partition
+    for cfg in ("bm M2 P4 MC", "bm M4 P8 MC", "bm M8 P8 MC", "bm M4 P8", "local P4"):
+        for nsh in (4, 8):
+            for nrows in (400, 4000):
+                for m in (12, 64):
+                    if tier == "quick" and r.below(2):
+                        continue
+                    yield "%s CH%d ;; N0=lines %d %d ; N1=map N0 mod%d ; N2=reduce N1 add ; OUT N2" % (cfg, r.choice([8, 128]), nsh, nrows, m)
     n = 120 if tier == "quick" else 1500
     k = 5 if tier == "quick" else 12
     for i in range(n):
